@@ -63,6 +63,11 @@ type c27Case struct {
 	LTime     uint64            `json:"ltime,omitempty"`   // user event
 	Payload   []byte            `json:"payload,omitempty"` // user event / query
 	RespLimit int               `json:"resp_limit,omitempty"`
+	// Reload: 0 the handlers are configured from the start; 1 the agent starts
+	// without handlers and they are installed by a configuration reload
+	// (UpdateScripts) before the event; 2 they are configured from the start and
+	// a reload removes them all before the event
+	Reload int `json:"reload,omitempty"`
 }
 
 var (
@@ -136,6 +141,7 @@ func genC27(t *rapid.T) c27Case {
 	c.EvKind = rapid.SampledFrom([]int{6, 0, 5, 6, 1, 2, 3, 4, 5}).Draw(t, "evkind")
 	c.SelfName = c27GenStr(t, "selfname")
 	c.SelfTags = c27GenTags(t, "selftags", 4)
+	c.Reload = rapid.SampledFrom([]int{0, 0, 0, 1, 1, 2}).Draw(t, "reload")
 	ns := 1
 	if c.EvKind != 6 {
 		ns = rapid.SampledFrom([]int{1, 1, 2, 3}).Draw(t, "nscripts")
@@ -471,6 +477,19 @@ func bodyC27(c c27Case, x *vkit.Ctx) {
 		Scripts:  scripts,
 		Logger:   log.New(&logBuf, "", 0),
 	}
+	configured := true // are the generated handlers the ones in force when the event arrives?
+	switch c.Reload {
+	case 1:
+		h.Scripts = nil
+		h.UpdateScripts(scripts)
+		x.Label("handlers-installed-by-reload")
+	case 2:
+		if c.EvKind != 6 { // the query response oracle below assumes its handler is configured
+			h.UpdateScripts([]agent.EventScript{})
+			configured = false
+			x.Label("handlers-removed-by-reload")
+		}
+	}
 
 	// the event
 	var ev serf.Event
@@ -542,6 +561,9 @@ func bodyC27(c c27Case, x *vkit.Ctx) {
 	invocations := 0
 	for i, s := range c.Scripts {
 		want := c27Matches(s.Spec, evType, nameForFilter)
+		if !configured {
+			want = 0
+		}
 		files, _ := filepath.Glob(fmt.Sprintf("%s.%d.*.env", base, i))
 		sort.Strings(files)
 		got := len(files)
